@@ -168,6 +168,7 @@ class VK:
                     s._record(name, "refuted", "ring", t0, "non-zero at a sample point inside requires (numeric probe with rounding-error bound; exact normal form skipped)", fam)
                 elif ring.iszero(d):
                     s._record(name, "discharged", "ring", t0, "", fam)
+                    s._second_opinion(name, fam, d)
                 else:
                     k = s._family_count[fam] = s._family_count.get(fam, 0) + 1
                     s._record(name, "refuted", "ring", t0, f"residual {ring.residual(d)!r}" if k <= 2 else "non-zero normal form (residual printed for the first refuted entries of this family)", fam)
@@ -177,6 +178,29 @@ class VK:
                     s._record(name, "discharged", "ring-tol", t0, f"sum|c|={float(n):.3g}<={tol:g}", fam)
                 else:
                     s._record(name, "refuted-tol", "ring-tol", t0, f"sum|c|={float(n):.3g}>{tol:g}; residual {ring.residual(d)!r}", fam)
+
+    def _second_opinion(s, name, fam, d):
+        """z3 re-decides a sample of the ring-proved identities (exported with the atom definitions and the
+        requires): unsat = confirmed by a second back end, unknown = ring only, sat = engine inconsistency"""
+        so = s.__dict__.setdefault("second", {"budget": 6, "families": set(), "unsat": 0, "unknown": 0, "sat": [], "sample": None})
+        if so["budget"] <= 0 or fam in so["families"] or not d.t or len(d.t) > 40:
+            return
+        so["families"].add(fam)
+        so["budget"] -= 1
+        try:
+            from . import oracle as _o
+
+            r, smt = _o.smt_equal_zero(d, timeout_ms=400)
+        except Exception:
+            return
+        if r == "unsat":
+            so["unsat"] += 1
+            if so["sample"] is None:
+                so["sample"] = {"obligation": name, "smt2": smt[:1500]}
+        elif r == "sat":
+            so["sat"].append(name)
+        else:
+            so["unknown"] += 1
 
     def _probe_env(s):
         """a float point inside requires for cheap refutation probes (None if none is found)"""
@@ -406,6 +430,11 @@ def run_task(args):
     out["oracle_log"] = oracle.LOG[:20]
     out["ring"] = {"generators": len(ring.GENS), "atoms": len(ring.DEFS), "iszero_calls": ring.STATS["iszero"]}
     out["samples"] = _samples(vk)
+    so = vk.__dict__.get("second")
+    if so:
+        out["second_opinion"] = {"z3_unsat": so["unsat"], "z3_unknown": so["unknown"], "z3_sat": so["sat"], "sample": so["sample"]}
+        for n in so["sat"]:
+            out["obl"].append({"name": n + "/second-opinion", "status": "error", "backend": "z3", "seconds": 0, "detail": "z3 found a counter-model for an identity the ring engine discharged (engine inconsistency)", "family": "second-opinion"})
     out["seconds"] = round(time.time() - t0, 3)
     return out
 
